@@ -220,6 +220,16 @@ def _strict(args: dict) -> dict:
         coll = _load(sc, docs, sc.get("correlations"))
     except Exception as e:
         return {"loadfail": world.exc_record(e)}
+    if int(sc.get("passes", 1)) > 1:
+        # a raising first pass would stop at the first failing rule and leave the later rules unprocessed:
+        # the earlier pass is made by a collecting backend (as in the world it is compared with), only the
+        # pass that is judged raises
+        b1 = _backend(sc, True)
+        b1.set_faults([] if sc.get("first_pass_clean") else sc.get("faults", []))
+        for _ in range(int(sc["passes"]) - 1):
+            world.capture(lambda: b1.convert(coll, sc["format"]))
+        b.set_faults(sc.get("faults", []))
+        return world.capture(lambda: b.convert(coll, sc["format"]))
     res = _convert_passes(sc, b, coll)
     res.pop("errors", None)
     return res
